@@ -15,6 +15,11 @@ Fixpoint check_all_from {A} (f : A -> N) (i : N) (cs : list A) : list (N * N) :=
   | [] => []
   | c :: cs' => let r := f c in (if N.eqb r 0 then [] else [(i, r)]) ++ check_all_from f (N.succ i) cs'
   end.
+(* the orchestrator turns at most the first 50 entries into replays: entries with a failing input (code >= 2)
+   go first, and of the code-1 entries (model <> implementation, laws kept) only two per shard are listed;
+   their total is reported by the counter model_mismatches *)
+Definition tidy (l : list (N * N)) : list (N * N) :=
+  filter (fun p => negb (N.eqb (snd p) 1)) l ++ firstn 2 (filter (fun p => N.eqb (snd p) 1) l).
 Definition code (agree laws : bool) : N :=
   if agree then (if laws then 0 else 3)%N else if laws then 1%N else 2%N.
 
@@ -99,7 +104,8 @@ Section Laws.
       (list_prod idx idx))).
 End Laws.
 Definition check_eq_case (c : eq_case) : N := code (eq_agree c) (laws (ec_refs c) (ec_obs c) (ec_hash c)).
-Definition check_all_eq := check_all_from check_eq_case 0%N.
+Definition check_all_eq (cs : list eq_case) := tidy (check_all_from check_eq_case 0%N cs).
+Definition eq_mismatches (cs : list eq_case) : N := N.of_nat (List.length (check_all_from check_eq_case 0%N cs)).
 Definition outside_guard_violations (cs : list eq_case) : N :=
   fold_left (fun a c => (a + unguarded_violations (ec_refs c) (ec_obs c) (ec_hash c))%N) cs 0%N.
 Definition guarded_triples (cs : list eq_case) : N :=
@@ -155,7 +161,8 @@ Definition ht_spec_ok (c : ht_case) : bool :=
   forallb (forallb (fun x => N.ltb x 2)) (hc_tobs c) &&
   all2 hobs_eqb (s_run (hc_pool c) (tobs_rel c) [] (hc_ops c)) (hc_obs c).
 Definition check_ht_case (c : ht_case) : N := code (ht_agree c) (negb (ht_guard c) || ht_spec_ok c).
-Definition check_all_ht := check_all_from check_ht_case 0%N.
+Definition check_all_ht (cs : list ht_case) := tidy (check_all_from check_ht_case 0%N cs).
+Definition ht_mismatches (cs : list ht_case) : N := N.of_nat (List.length (check_all_from check_ht_case 0%N cs)).
 Definition ht_guarded (cs : list ht_case) : N := N.of_nat (List.length (filter ht_guard cs)).
 Definition ht_spec_violations (cs : list ht_case) : N := N.of_nat (List.length (filter (fun c => negb (ht_spec_ok c)) cs)).
 (* self-check of the guard theorem on the run's pools: a guarded pool satisfies pool_ok for eql *)
@@ -184,4 +191,5 @@ Definition check_ty_case (t kt : ctable) (c : ty_case) : N :=
                  end in
       code agree law
   end.
-Definition check_all_ty (t kt : ctable) := check_all_from (check_ty_case t kt) 0%N.
+Definition check_all_ty (t kt : ctable) (cs : list ty_case) := tidy (check_all_from (check_ty_case t kt) 0%N cs).
+Definition ty_mismatches (t kt : ctable) (cs : list ty_case) : N := N.of_nat (List.length (check_all_from (check_ty_case t kt) 0%N cs)).
